@@ -14,7 +14,7 @@ from vstat.rewrites import transformed  # noqa: E402
 
 def main():
     bad = 0
-    for kind in ("format", "rename", "commute", "keywordize", "hoist", "invert-if", "yoda", "method-to-function", "else-after-return", "reverse-keywords", "fstring", "unpack-to-index", "composed", "extract-helper", "explicit-defaults", "extract-method", "aug-to-assign"):
+    for kind in ("format", "rename", "commute", "keywordize", "hoist", "invert-if", "yoda", "method-to-function", "else-after-return", "reverse-keywords", "fstring", "unpack-to-index", "composed", "extract-helper", "explicit-defaults", "extract-method", "aug-to-assign", "if-to-ifexp"):
         overlay = transformed(kind)
         for src in overlay.values():
             compile(src, "<variant>", "exec")
